@@ -2,6 +2,7 @@
 //! against a transport that takes only some bytes at first ("would-block at any offset", also
 //! inside the 8-byte header) and becomes willing again later.
 //!   run BUDGET RELEASE_MS [MAXWRITE]
+//!   run-eager BUDGET RELEASE_MS [MAXWRITE]     the server sends Connection.Start without waiting for the header
 use super::Engine;
 use crate::broker::{self, AutoConfig, Seen};
 use crate::err_token;
@@ -17,7 +18,9 @@ pub struct HsWriteEngine;
 impl Engine for HsWriteEngine {
     fn step(&mut self, toks: &[&str], out: &mut Vec<String>) {
         match toks {
-            ["run", budget, release, rest @ ..] => {
+            ["run", budget, release, rest @ ..] | ["run-eager", budget, release, rest @ ..] => {
+                // run-eager: the server greets on accept (Start is in the socket before the client polls)
+                broker::EAGER_START.store(toks[0] == "run-eager", Ordering::SeqCst);
                 let (budget, release): (usize, u64) = match (budget.parse(), release.parse()) {
                     (Ok(a), Ok(b)) => (a, b),
                     _ => return out.push("bad-op".into()),
@@ -62,6 +65,7 @@ impl Engine for HsWriteEngine {
                 stop.store(true, Ordering::SeqCst);
                 peer.end(mock::Fault::Eof);
                 let _ = bt.join();
+                broker::EAGER_START.store(false, Ordering::SeqCst);
             }
             _ => out.push("bad-op".into()),
         }
